@@ -192,6 +192,7 @@ def _simulate_built(unit, P, root, uidx, comp, drv, scratch, res):
     canons = {}
     cut_states = set()
     all_states = set()
+    rescue = []
     for r_id, (xi, fill, lines) in keyA.items():
         run, crash = outA.get(r_id, (None, ("harness", "missing", "")))
         stats["canonical_runs"] += 1
@@ -200,6 +201,8 @@ def _simulate_built(unit, P, root, uidx, comp, drv, scratch, res):
             stats["crashes"] += 1
             _add_crash(res, crash, ctx, "canonical")
             stats["canon_unusable"] += 1
+            if unit.get("family") and fill == 0 and caps.indirect:
+                rescue.append(xi)
             continue
         _account(stats, run)
         ops = {i: oracles.parse_op(l) for i, l in enumerate([l for l in lines if l.startswith("OP ")])}
@@ -239,6 +242,25 @@ def _simulate_built(unit, P, root, uidx, comp, drv, scratch, res):
         if len(res["samples"]) < 2:
             res["samples"].append({"kind": "canonical", "input": xs[xi].hex(), "script_head": lines[:8],
                                    "steps": [(s.i, s.code, s.pos_after, len(s.events)) for s in cn.steps[:12]]})
+    # ---------------- rescue: the one-byte schedule died (sanitizer report).  For family units the reference model
+    # is still checked, against a whole-buffer session, so that the protocol side of the defect is not hidden
+    # behind the memory report.
+    if rescue:
+        from . import families
+        rr = []
+        for k, xi in enumerate(rescue):
+            x = xs[xi]
+            rr.append((900000 + k, sched.run_text(900000 + k, {0: x}, ["OP 0 START 0", "OP 0 FEED 0 %d 0 -" % len(x)])))
+        outR = exec_runs(drv, rr, scratch)
+        for k, xi in enumerate(rescue):
+            run, crash = outR.get(900000 + k, (None, ("harness", "missing", "")))
+            if crash is not None or run is None or run.aborts:
+                continue
+            cc = oracles.CoarseCanon(run.session(0), len(xs[xi]), caps.indirect)
+            ctx = _ctx(unit, comp, {0: xs[xi]}, rr[k][1])
+            for f in families.check_canon(unit["family"], xs[xi], cc, flags):
+                _add(res, f, ctx, "rescue-model")
+            stats["model_checked"] = stats.get("model_checked", 0) + 1
     # ---------------- phase B: scheduled passes
     runsB = []
     keyB = {}
